@@ -39,6 +39,9 @@ LONG = [
     ("left-rec", [(0.7, "S", ("S", "a")), (0.3, "S", ("a",))]),
     ("anbn", [(0.4, "S", ("a", "S", "b")), (0.6, "S", ())]),
     ("unary+rec", [(1.0, "S", ("A",)), (0.9, "A", ("a", "A")), (0.1, "A", ("b",))]),
+    # un-normalised, very small per-token weights: plain weights underflow after ~100 / ~10 tokens
+    ("tiny", [(1e-3, "S", ("a", "S")), (2e-3, "S", ("b", "S")), (1.0, "S", ())]),
+    ("very-tiny", [(1e-30, "S", ("a", "S")), (3e-30, "S", ("b", "S")), (1.0, "S", ())]),
 ]
 
 
@@ -302,6 +305,10 @@ def _closed_form(family, ctx):
         if nb == 0:
             return {"a": 0.9, "b": 0.1}
         return {EOS: 1.0}
+    if family in ("tiny", "very-tiny"):
+        # right-linear: pw(x.t)/pw(x) = w_t for t in {a,b}, and w(x)/pw(x) = 1 - w_a - w_b for EOS
+        wa, wb = (1e-3, 2e-3) if family == "tiny" else (1e-30, 3e-30)
+        return {"a": wa, "b": wb, EOS: 1.0 - wa - wb}
     raise KeyError(family)
 
 
@@ -319,18 +326,22 @@ def run_long(case):
         seq = ("a",) * (N // 2) + ("b",) * (N // 2)
     elif fam == "unary+rec":
         seq = ("a",) * (N - 1) + ("b",)
+    elif fam in ("tiny", "very-tiny"):
+        seq = ("a", "b", "b") * (N // 3)
     else:
         seq = ("a",) * N
     lm = earley_rescaled.EarleyLM(g)
     plain = earley.EarleyLM(g)
-    logp = 0.0
+    # model.logp(x) is the log PREFIX WEIGHT: sum of log conditionals + log of the total weight Z
+    logp = 0.0 if "tiny" not in fam else -math.log(1.0 - ((1e-3 + 2e-3) if fam == "tiny" else 4e-30))
     underflow_seen = False
     for n in range(len(seq) + 1):
         ctx = seq[:n]
         want = _closed_form(fam, ctx)
         have = _call(lm.p_next, ctx)
         evals += 1
-        bad = isinstance(have, str) or any(not gram.fclose(have[t], want.get(t, 0.0), rel=1e-6, abs_=1e-9) for t in V | {EOS})
+        abs_tol = 1e-9 if "tiny" not in fam else 1e-45
+        bad = isinstance(have, str) or any(not gram.fclose(have[t], want.get(t, 0.0), rel=1e-6, abs_=abs_tol) for t in V | {EOS})
         if bad:
             fails.append(_fail("rescaled: p_next on a long context == closed form", dict(inp0, n=n), have if isinstance(have, str) else dict(have), want))
             break
